@@ -75,6 +75,8 @@ pub enum Stall {
     Us50,
     Us500,
     Ms2,
+    /// a long absence in milliseconds (real threads only; a yield under the schedule-controlled runtime)
+    Ms(u16),
 }
 
 #[derive(Clone, Debug, PartialEq, Eq, Hash, Serialize, Deserialize)]
@@ -305,6 +307,11 @@ pub struct Scenario {
     /// executed by the coordinator after all client threads were joined; afterwards the
     /// coordinator always opens every gate and stops every store (idempotent clean-up)
     pub epilogue: Vec<Op>,
+    /// the scenario keeps a thread away for longer than the store's internal 3 s time-outs on
+    /// purpose: slow operations are expected and do not make the case inconclusive. Only set by
+    /// scenarios whose oracle holds whichever way the time-outs fall.
+    #[serde(default)]
+    pub long_waits: bool,
 }
 
 impl Scenario {
